@@ -83,6 +83,17 @@ def build(name):
             number_of_servers=[2, 1],
             routing=[[0.0, 0.5], [0.0, 0.0]],
             service_disciplines=[ciw.disciplines.SIRO, ciw.disciplines.LIFO])
+    if name == "from_dict":
+        global _PARAMS
+        if _PARAMS is None:
+            _PARAMS = {
+                "arrival_distributions": {"A": [D.Exponential(2.0)], "B": [D.Exponential(1.0)]},
+                "service_distributions": {"A": [D.Exponential(1.5)], "B": [D.Exponential(4.0)]},
+                "number_of_servers": [1],
+                "priority_classes": ({"A": 1, "B": 0}, ["resume"]),
+                "routing": {"A": [[0.3]], "B": [[0.0]]},
+            }
+        return ciw.create_network_from_dictionary(_PARAMS)      # the SAME dictionary every time
     if name in ("exact_customers", "exact_low"):
         return ciw.create_network(
             arrival_distributions=[D.Exponential(3.0)],
@@ -91,10 +102,11 @@ def build(name):
     raise ValueError(name)
 
 
+_PARAMS = None
 EXACT = {"exact_customers": 10, "exact_low": 4}      # exact-mode configurations (decimal context is process-global)
 BY_CUSTOMERS = {"exact_customers": 25}               # run with simulate_until_max_customers(n)
 
-CONFIGS = ["sequential", "cycle", "process", "schedules", "reneging", "intervals", "continuous", "empirical", "exact_customers", "exact_low"]
+CONFIGS = ["sequential", "cycle", "process", "schedules", "reneging", "intervals", "continuous", "empirical", "exact_customers", "exact_low", "from_dict"]
 DETERMINISTIC = ["det-cycle", "det-sequential", "det-schedule"]
 
 
